@@ -2,12 +2,12 @@ SPECIFICATION Spec
 CONSTANTS
   Terms = {a, b}
   NW = 1
-  MaxOps = 4
+  MaxOps = 5
   MaxStamp = 14
   MaxMerges = 1
-  AllowDeleteAll = TRUE
-  AllowExplicitUncommittedMerge = FALSE
-  ExplicitMergeTarget = "current"
+  AllowDeleteAll = FALSE
+  AllowExplicitUncommittedMerge = TRUE
+  ExplicitMergeTarget = "commit"
   AllowBatch = FALSE
   AllowReopen = FALSE
   AllowPrepare = FALSE
